@@ -24,8 +24,9 @@ RULE = ("(1) strip_peptides vs the scanners: every string over {A,k,.,[,],(,),-}
         "'(ox)' '[+79.97]', lower-case termini, all-lower-case columns; pairwise distinct scores (full comparison) and "
         "a tie stream (pair key -> score only); (3) sanity-error stream around the 10% / 5% thresholds, empty and "
         "all-shared tables; (4) the same tables through brew-less assign_confidence(proteins=...) reading "
-        "targets.proteins / decoys.proteins (q-values). distinct = distinct case; non-trivial = a pair with both a "
-        "target and a decoy row, or a shared/unknown row, or a decorated peptide")
+        "targets.proteins / decoys.proteins (q-values). distinct = distinct case; non-trivial = some peptide is "
+        "written with flanks / modifications / lower-case marks or is unknown to the database (strip cases: a bracket, "
+        "parenthesis, '.' or an all-lower-case string occurs)")
 ASSUMPTIONS = [
     "peptide strings are ASCII without newline (str.islower/upper modelled for A-Z/a-z; '.' of a regex = any character)",
     "scores reach the model as exact integers (dyadic floats scaled by a common power of two)",
@@ -138,19 +139,21 @@ def mirror(pep, how, rng):
     return "".join(b) + last
 
 
-def gen_fasta(rng, mode):
-    """-> (fasta text, list of plain peptides of targets, of decoys)"""
-    npool = rng.randint(3, 9)
+def gen_fasta(rng, mode, wide=False):
+    """-> (fasta text, list of plain peptides of targets, of decoys); wide: many proteins, few overlaps"""
+    npool = rng.randint(14, 24) if wide else rng.randint(3, 9)
     pool = []
     while len(pool) < npool:
         p = rand_pep(rng)
         if p not in pool:
             pool.append(p)
-    nprot = rng.randint(2, 7)
+    nprot = rng.randint(6, 11) if wide else rng.randint(2, 7)
     names = ["sp|P%02d|X%d" % (k, k) if rng.random() < 0.3 else "P%d" % k for k in range(nprot)]
     prots = []
     for k in range(nprot):
         kind = rng.random()
+        if wide:
+            kind = 0.5 + kind / 2 if kind < 0.8 else kind - 0.8
         if prots and kind < 0.25:       # subset of an earlier one
             src = rng.choice(prots)
             peps = rng.sample(src, rng.randint(1, len(src)))
@@ -158,7 +161,7 @@ def gen_fasta(rng, mode):
             peps = list(rng.choice(prots))
             rng.shuffle(peps)
         else:
-            peps = rng.sample(pool, rng.randint(1, min(4, npool)))
+            peps = rng.sample(pool, rng.randint(1, 2 if wide else min(4, npool)))
         prots.append(peps)
     lines = []
     tpeps, dpeps = set(), set()
@@ -184,25 +187,28 @@ def gen_fasta(rng, mode):
 
 def gen_rows(rng, tpeps, dpeps, mode, lower=False, ties=False, unknown=None, nmax=40):
     rows = []
-    cand = [(p, True) for p in tpeps] + [(p, False) for p in dpeps]
+    cand = [(p, True, 0) for p in tpeps] + [(p, False, 0) for p in dpeps]
     if mode == "target-only":
         for p in tpeps:
             r = rng.random()
+            m = mirror(p, "reverse", rng)
             if r < 0.6:
-                cand.append((mirror(p, "reverse", rng), False))     # same composition: match_decoy finds a target
+                cand.append((m, False, 0))        # same composition: match_decoy finds a target
             elif r < 0.7:
-                cand.append((p, False))                              # decoy row with a target sequence
+                cand.append((p, False, 0))        # decoy row with a target sequence
             elif r < 0.8:
-                cand.append((mirror(p, "reverse", rng), True))      # target row known only to the decoy map
+                cand.append((m, False, 1))        # a decoy row and a target row with the same decoy sequence:
+                cand.append((m, True, 1))         # the target row is known only to the decoy map
     rng.shuffle(cand)
-    for p, t in cand:
-        for _ in range(rng.choice([0, 1, 1, 1, 2, 3])):
-            if len(rows) < nmax:
-                rows.append([t if rng.random() < 0.93 else (not t), p])
+    for p, t, least in cand:
+        for _ in range(max(least, rng.choice([0, 1, 1, 1, 2, 3]))):
+            if len(rows) < nmax or least:
+                rows.append([t if (least or rng.random() < 0.93) else (not t), p])
     if unknown is None:
-        unknown = rng.choice([0, 0, 0, 1, 2]) if len(rows) >= 20 else rng.choice([0, 0, 0, 0, 1])
+        unknown = rng.choice([0, 0, 0, 1, 2]) if len(rows) >= 24 else (rng.choice([0, 0, 0, 1]) if len(rows) >= 12 else 0)
     for _ in range(unknown):
-        rows.append([rng.random() < 0.15 if mode != "target-only" else rng.random() < 0.5, rand_pep(rng, 4, 7) + "W"])
+        # unknown sequences are mostly decoy hits (a foreign target trips the 5% check unless decoys abound)
+        rows.append([rng.random() < 0.1, rand_pep(rng, 4, 7) + "W"])
     rng.shuffle(rows)
     n = len(rows)
     if ties:
@@ -224,14 +230,21 @@ def gen_rows(rng, tpeps, dpeps, mode, lower=False, ties=False, unknown=None, nma
 FASTA_ARGS = {"missed_cleavages": 0, "min_length": 3, "max_length": 50, "decoy_prefix": "decoy_"}
 
 
-def _picked_case(rng, mode, tags, fn="picked", **kw):
-    fasta, tp, dp = gen_fasta(rng, mode)
+def _picked_case(rng, mode, tags, fn="picked", wide=False, **kw):
+    fasta, tp, dp = gen_fasta(rng, mode, wide)
     args = dict(FASTA_ARGS)
     if rng.random() < 0.2:
         args["missed_cleavages"] = 1
-    rows = gen_rows(rng, tp, dp, mode, **kw)
-    return {"fn": fn, "fasta": fasta, "fasta_args": args, "rows": rows, "seed": rng.randrange(1 << 30),
-            "ties": bool(kw.get("ties")), "tags": [fn, "fasta=" + mode] + list(tags)}
+    c = {"fn": fn, "fasta": fasta, "fasta_args": args, "rows": [], "seed": rng.randrange(1 << 30),
+         "ties": bool(kw.get("ties")), "tags": [fn, "fasta=" + mode, "mc=%d" % args["missed_cleavages"]] + list(tags)}
+    # the peptides the real digest produced (unique and shared), split by the kind of protein owning them
+    P = _proteins(c)
+    if P is not None:
+        allp = list(P.peptide_map.items()) + list(P.shared_peptides.items())
+        tp = sorted(p for p, g in allp if not g.startswith(args["decoy_prefix"]))
+        dp = sorted(p for p, g in allp if g.startswith(args["decoy_prefix"]))
+    c["rows"] = gen_rows(rng, tp, dp, mode, **kw)
+    return c
 
 
 def gen(ctx):
@@ -266,7 +279,7 @@ def gen(ctx):
         mode = modes[k % len(modes)]
         r = rng.random()
         if r < 0.7:
-            cases.append(_picked_case(rng, mode, ["distinct-scores"]))
+            cases.append(_picked_case(rng, mode, ["distinct-scores"], wide=(k % 4 == 3)))
         elif r < 0.85:
             cases.append(_picked_case(rng, mode, ["tie-stream"], ties=True))
         else:
@@ -284,20 +297,20 @@ def gen(ctx):
             for _ in range(rng.randint(1, 6)):
                 rows.append([rng.random() < 0.5, rand_pep(rng, 4, 7) + "W", rng.randint(-50, 50) / 4 + 1000, "?"])
         elif kind == "unknown-boundary":
-            # exactly 10% / just above; 1 unknown target among 19, 20, 21 decoy rows
-            n = len(rows)
-            if rng.random() < 0.5 and n >= 5:
-                want = rng.choice([9, 10, 11, 19, 20, 21])
-                rows = rows[:want - 1] if len(rows) >= want - 1 else rows
-                rows.append([rng.random() < 0.5, "QQQQQQW", 999.5, "?"])
-            else:
-                nd = rng.choice([19, 20, 21])
-                dec = [r for r in rows if not r[0]]
-                tg = [r for r in rows if r[0]]
-                if dec:
-                    extra = [[False, dec[j % len(dec)][1] + "[+%d]" % j, 2000.0 + j, dec[j % len(dec)][3]] for j in range(nd)]
-                    rows = tg[:5] + extra[:nd]
-                    rows.append([True, "QQQQQQW", 999.5, "?"])
+            # exactly at / just around the thresholds: k unknown of n rows (10%), k unknown targets over nd decoy rows (5%)
+            base = [r for r in rows if r[3] != "?"]
+            rep = lambda src, j: [src[j % len(src)][0], src[j % len(src)][3] + "[+%d]" % j, 2000.0 + j, src[j % len(src)][3]]
+            dec = [r for r in base if not r[0]]
+            if base and (rng.random() < 0.6 or not dec):
+                n, k = rng.choice([(10, 1), (9, 1), (11, 1), (20, 2), (19, 2), (21, 2), (30, 3), (29, 3)])
+                rows = [rep(base, j) for j in range(n - k)]
+                flag = mode == "target-only"       # unknown decoys are not counted with a target-only FASTA
+                rows += [[flag, "QQQQQ%sW" % "ACDEF"[j], 999.5 - j, "?"] for j in range(k)]
+            elif dec:
+                nd, k = rng.choice([(19, 1), (20, 1), (21, 1), (40, 2), (39, 2), (41, 2)])
+                tg = [r for r in base if r[0]]
+                rows = [rep(dec, j) for j in range(nd)] + [rep(tg, j) for j in range(3 if tg else 0)]
+                rows += [[True, "QQQQQ%sW" % "ACDEF"[j], 999.5 - j, "?"] for j in range(k)]
         elif kind == "all-shared-or-unknown":
             rows = [r for r in rows if r[3] == "?"]     # filled below from shared peptides
             c["_want_shared"] = True
@@ -322,15 +335,23 @@ def gen(ctx):
                 seen.add(r[2])
     # ---- through assign_confidence
     rng = ctx.sub("confidence")
-    for k in range(60 if ctx.thorough else 14):
+    for k in range(80 if ctx.thorough else 20):
         mode = ["mirror", "mirror", "regroup", "partial", "target-only"][k % 5]
-        c = _picked_case(rng, mode, ["distinct-scores"], fn="confidence", unknown=0, nmax=30)
+        c = _picked_case(rng, mode, ["distinct-scores"], fn="confidence", wide=(k % 3 != 2), unknown=0, nmax=40)
         # one row per peptide string (the peptide level is a roll-up by peptide string)
         seen, rows = set(), []
         for r in c["rows"]:
             if r[1] not in seen and r[1] != "":
                 seen.add(r[1])
                 rows.append(r)
+        # targets mostly above decoys so that q-values below 1 occur; scores stay pairwise distinct
+        used = set()
+        for r in rows:
+            if r[0] and rng.random() < 0.85:
+                r[2] += 100.0
+            while r[2] in used:
+                r[2] += 0.125
+            used.add(r[2])
         # the peptide-level file is written best score first: row labels = ranks
         c["rows"] = sorted(rows, key=lambda r: -r[2])
         cases.append(c)
@@ -728,15 +749,21 @@ def extra_checks(ctx):
             break
     info["exhaustive"] = {"alphabet": ALPHA, "regex_vs_scanner_strings": len(strs), "regex_comparisons": nre,
                           "column_len": len(strs), "single_row_columns": nsingle}
-    # (d) oracle contracts on the recorded values
-    nord = nbad = 0
+    # (d) oracle contracts on the recorded values: DataFrame.sample(frac=1) draws every retained row exactly once
+    nord = ndup = nmiss = 0
     for k, v in list(_CACHE.items()):
-        if not isinstance(v, dict) or "order" not in v or v["result"][0] != "ok":
+        if not isinstance(k, str) or not isinstance(v, dict) or "order" not in v or v["result"][0] != "ok":
             continue
+        c = json.loads(k)
         nord += 1
         if len(set(v["order"])) != len(v["order"]):
-            nbad += 1
-    info["oracle_contract_checks"] = {"sample_orders_checked": nord, "with_duplicates": nbad}
-    if nbad:
-        fails.append({"what": f"DataFrame.sample returned duplicated labels in {nbad} runs", "failing_input": None})
+            ndup += 1
+        st = spec_strip_col([x[1] for x in c["rows"]])
+        need = {j for j, sq in enumerate(st) if _group_of(v["P"], v["dm"], sq) is not None}
+        if not need <= set(v["order"]):
+            nmiss += 1
+    info["oracle_contract_checks"] = {"sample_orders_checked": nord, "with_duplicates": ndup, "missing_retained_rows": nmiss}
+    if ndup or nmiss:
+        fails.append({"what": f"DataFrame.sample contract broken: {ndup} orders with duplicated labels, {nmiss} not covering "
+                              f"the retained rows", "failing_input": None})
     return fails, info
